@@ -116,7 +116,7 @@ def _fix_paths(paths):
 
 @st.composite
 def tree(draw, P, max_files=8, modes=None, single=None, min_files=1, cli_safe=False, big=True,
-         nonempty_total=False, hardlinks=True):
+         nonempty_total=False, hardlinks=True, symlinks=True):
     """A content tree: {'name','single','files':[{'path','size','mode','seed'}]}."""
     modes = modes or MODES_ALL
     comp = name_component(cli_safe)
@@ -158,6 +158,8 @@ def tree(draw, P, max_files=8, modes=None, single=None, min_files=1, cli_safe=Fa
     for p in paths:
         f = draw(file_entry(P, modes, big))
         f["path"] = p
+        if len(p) == 2 and p[0] == ".pad" and p[1].isdigit() and draw(st.booleans()):
+            f["size"] = int(p[1])       # looks exactly like a padding file some client wrote to disk
         files.append(f)
     if nonempty_total and all(f["size"] == 0 for f in files):
         files[0]["size"] = 1 + draw(st.integers(0, 2 * P))
@@ -185,10 +187,32 @@ def tree(draw, P, max_files=8, modes=None, single=None, min_files=1, cli_safe=Fa
         twin["path"] = _fix_paths([list(t["path"]) for t in files] + [list(draw(st.lists(one, min_size=1, max_size=2)))])[-1]
         twin["hardlink"] = j
         files.append(twin)
+    links = []
+    if symlinks and draw(st.sampled_from([True] + [False] * 6)):
+        # a symbolic link to a sibling directory or to a file of the tree: the tool follows it, so the files behind it
+        # are payload under the link's name as well ("via" entries: not written by the materialiser, the link provides them)
+        dirs = sorted({f["path"][0] for f in files if len(f["path"]) > 1 and f.get("hardlink") is None})
+        taken = {tuple(f["path"][:1]) for f in files}
+        lname = draw(st.sampled_from(["current", "zz-link", "0link", "latest.bin"]))
+        if (lname,) not in taken:
+            if dirs and draw(st.booleans()):
+                d = draw(st.sampled_from(dirs))
+                links.append({"path": [lname], "target": d})
+                for j, f in enumerate(list(files)):
+                    if len(f["path"]) > 1 and f["path"][0] == d and f.get("via") is None:
+                        files.append({"path": [lname] + f["path"][1:], "size": f["size"], "mode": f["mode"], "seed": f["seed"], "via": j})
+            else:
+                j = draw(st.integers(0, len(files) - 1))
+                if files[j].get("hardlink") is None:
+                    links.append({"path": [lname], "target": "/".join(files[j]["path"])})
+                    files.append({"path": [lname], "size": files[j]["size"], "mode": files[j]["mode"], "seed": files[j]["seed"], "via": j})
     if len(files) == 1 and files[0]["path"] == [name]:
         # BEP 52 cannot tell "directory x holding only file x" from "single file x": not generated
         files[0]["path"] = [name + "~f"]
-    return {"name": name, "single": False, "files": files}
+    out = {"name": name, "single": False, "files": files}
+    if links:
+        out["links"] = links
+    return out
 
 
 def tree_total(tree):
